@@ -10,6 +10,7 @@ mod dispatch;
 mod validators;
 mod layouts;
 mod tables;
+mod families;
 
 use std::path::PathBuf;
 
@@ -40,6 +41,7 @@ fn main() {
     run("validators", &validators::run);
     run("layouts", &layouts::run);
     run("tables", &tables::run);
+    run("families", &families::run);
     if failed {
         std::process::exit(2);
     }
